@@ -160,7 +160,7 @@ func twinCases(u twinUnit, thorough bool, visit func(cs Case, discr string)) {
 					discr = "accept"
 				}
 				for _, en := range entriesAll {
-					if en == "upgrade-reuse" || (en == "lint" && route != "U") {
+					if en == "upgrade-reuse" || historyEntry(en) || (en == "lint" && route != "U") {
 						continue // lint meets the twins with one chart on disk per schema pair (route U)
 					}
 					for _, skip := range []bool{false, true} {
